@@ -1199,6 +1199,11 @@ func EvalExpression(exprSrc string, rootValue interface{}, stdout io.Writer) (*C
 	cell, err := ev.evalExpr(expr)
 	switch err {
 	case nil:
+		if cell.Value.Tag == ValueNil {
+			// a selector that finds nothing selects a plain null, not a
+			// placeholder still attached to the value it was looked up in
+			return NewCell(NewValue(nil)), nil
+		}
 		return cell, nil
 	case errNext, errBreak, errContinue, errReturn:
 		// control flow that escaped the expression, the result is null
